@@ -215,6 +215,9 @@ func typeOf(n *Node, rev bool) reflect.Type {
 	case "time":
 		return timeType
 	case "slice":
+		if n.W == "named" {
+			return reflect.TypeOf(NamedStrList(nil)) // a user-defined list type; a Default for it may well be written as a plain []string
+		}
 		return reflect.SliceOf(typeOf(n.Elem, rev))
 	case "ptr":
 		return reflect.PointerTo(typeOf(n.Elem, rev))
@@ -741,6 +744,9 @@ func (e *Engine) coercerOpts(n *Node) []z.SchemaOption {
 // &z.StringSchema[NamedStr]{} with a coercer that converts what the default string coercer returns.
 type NamedStr string
 
+// NamedStrList is a user-defined list type (destination of a Slice(String()) schema).
+type NamedStrList []string
+
 func valStringsAs[T ~string](l []Val) []T {
 	out := make([]T, len(l))
 	for i := range l {
@@ -994,10 +1000,14 @@ func (e *Engine) Build(n *Node) z.ZogSchema {
 			s.Required().Optional() // the later call counts
 		}
 		if n.Def != nil {
-			dv := Populate(TypeOf(n), *n.Def)
+			dt := TypeOf(n)
+			if n.W == "named" {
+				dt = reflect.SliceOf(TypeOf(n.Elem))
+			}
+			dv := Populate(dt, *n.Def)
 			if dv.Len() == 0 {
 				// an empty default that owns spare storage (`buf[:0]`, `make([]T, 0, n)`)
-				dv = reflect.MakeSlice(TypeOf(n), 0, 4)
+				dv = reflect.MakeSlice(dt, 0, 4)
 			}
 			s.Default(e.own("default", n, dv.Interface()))
 		}
